@@ -302,7 +302,7 @@ fn case(tier: Tier, rng: &mut Rng, rep: &mut Report) {
 
 pub fn run(tier: Tier, seed: u64) -> MonOut {
     let saved = silence_stderr();
-    let n = tier.n(400, 12_000);
+    let n = tier.n(4_000, 120_000);
     let rep = par_cases(seed, n, |_i, rng, rep| case(tier, rng, rep));
     crate::appgen::restore_stderr(saved);
     MonOut {
